@@ -155,6 +155,7 @@ func Run(cfg hx.Config) error {
 	defer lap("manager")
 	replayKnown(r, ts)
 	replayRegressions(r, ts)
+	runSemantic(r, ts)
 	nfeeds := cfg.N(2, 10)
 	for ti := range ts {
 		t := &ts[ti]
